@@ -11,7 +11,10 @@
 (* the answer is the one an independent reader finds.                      *)
 (***************************************************************************)
 EXTENDS Naturals, TLC
+CONSTANT TranslateVaddr   \* TRUE: in a file, DT_STRTAB (a virtual address) is translated through the PT_LOAD segment containing it;
+                          \* FALSE: it is used as a file offset as it stands
 Elf == [bits64 : BOOLEAN,
+        layout : {"identity", "shift_outside", "shift_inside"},   \* virtual address = file offset (+ a shift that puts DT_STRTAB, read as an offset, outside / inside the file)
         phdrs  : {"ok", "absent", "pastend"},
         phNote : {"ok", "absent", "range_bad", "other_note"},
         shdrs  : {"ok", "absent", "pastend"},
@@ -25,11 +28,16 @@ PhNoteId(e)  == e.phdrs = "ok" /\ e.phNote = "ok"
 SectionId(e) == e.shdrs = "ok" /\ e.strtab = "ok" /\ e.secNote = "ok"
 TextId(e)    == e.shdrs = "ok" /\ e.text = "ok"
 BuildIdOutcome(e) == IF PhNoteId(e) THEN "ph" ELSE IF SectionId(e) THEN "section" ELSE IF TextId(e) THEN "text" ELSE "err"
-PhSoname(e)  == e.phdrs = "ok" /\ e.dyn = "ok" /\ e.soname = "ok"
+(* the program-header strategy: "next" = an error value, the section strategy is tried *)
+PhSonameReached(e) == e.phdrs = "ok" /\ e.dyn = "ok" /\ e.soname = "ok"
+PhSonameResult(e)  == IF ~PhSonameReached(e) THEN "next"
+                      ELSE IF e.layout = "identity" \/ TranslateVaddr THEN "ok"
+                      ELSE IF e.layout = "shift_inside" THEN "other"      \* whatever bytes lie at that file offset, up to a NUL
+                      ELSE "next"                                        \* beyond the end of the file: an error value
 (* the section strategy returns at the DT_SONAME entry, before it would reach the end of an unterminated array; the program-header
    strategy collects three entries over the whole array and fails on the entry it cannot decode *)
 SecSoname(e) == e.shdrs = "ok" /\ e.dyn \in {"ok", "unterminated"} /\ e.soname = "ok"
-SonameOutcome(e) == IF PhSoname(e) \/ SecSoname(e) THEN "ok" ELSE "err"
+SonameOutcome(e) == IF PhSonameResult(e) # "next" THEN PhSonameResult(e) ELSE IF SecSoname(e) THEN "ok" ELSE "err"
 
 VARIABLES elf, pc, bid, so
 vars == <<elf, pc, bid, so>>
@@ -37,10 +45,12 @@ Init == elf \in Elf /\ pc = "ph_note" /\ bid = "none" /\ so = "none"
 TryPhNote  == pc = "ph_note" /\ (IF PhNoteId(elf) THEN bid' = "ph" /\ pc' = "ph_soname" ELSE bid' = bid /\ pc' = "sec_note") /\ UNCHANGED <<elf, so>>
 TrySecNote == pc = "sec_note" /\ (IF SectionId(elf) THEN bid' = "section" /\ pc' = "ph_soname" ELSE bid' = bid /\ pc' = "text") /\ UNCHANGED <<elf, so>>
 TryText    == pc = "text" /\ bid' = (IF TextId(elf) THEN "text" ELSE "err") /\ pc' = "ph_soname" /\ UNCHANGED <<elf, so>>
-TryPhSoname == pc = "ph_soname" /\ (IF PhSoname(elf) THEN so' = "ok" /\ pc' = "done" ELSE so' = so /\ pc' = "sec_soname") /\ UNCHANGED <<elf, bid>>
+TryPhSoname == pc = "ph_soname" /\ (IF PhSonameResult(elf) # "next" THEN so' = PhSonameResult(elf) /\ pc' = "done" ELSE so' = so /\ pc' = "sec_soname") /\ UNCHANGED <<elf, bid>>
 TrySecSoname == pc = "sec_soname" /\ so' = (IF SecSoname(elf) THEN "ok" ELSE "err") /\ pc' = "done" /\ UNCHANGED <<elf, bid>>
 Next == TryPhNote \/ TrySecNote \/ TryText \/ TryPhSoname \/ TrySecSoname
 Spec == Init /\ [][Next]_vars
-Total == pc = "done" => bid \in {"ph", "section", "text", "err"} /\ so \in {"ok", "err"}
+Total == pc = "done" => bid \in {"ph", "section", "text", "err"} /\ so \in {"ok", "err", "other"}
+(* C14: what is returned as the SONAME is the image's DT_SONAME string, never some other bytes *)
+SonameIsTheImages == pc = "done" => so # "other"
 StepsAreFunction == pc = "done" => bid = BuildIdOutcome(elf) /\ so = SonameOutcome(elf)
 =============================================================================
